@@ -281,12 +281,11 @@ impl<'a> Source<'a> {
 
     /// Creates a new radial gradient that is centered at the given point and has the given radius.
     pub fn new_radial_gradient(gradient: Gradient, center: Point, radius: f32, spread: Spread) -> Source<'a> {
-        // Scale gradient to desired radius
-        let scale = Transform::scale(radius, radius);
-        // Transform gradient to center of gradient
-        let translate = Transform::translation(center.x, center.y);
-        // Compute final transform
-        let transform = scale.then(&translate).inverse().unwrap();
+        // Map the circle onto the unit circle at the origin: move the center to the origin and
+        // then scale by 1/radius. This is the inverse of scale(radius).then(translate(center)),
+        // written out directly because that matrix stops being invertible in f32 once
+        // radius * radius underflows.
+        let transform = Transform::translation(-center.x, -center.y).then_scale(1. / radius, 1. / radius);
 
         Source::RadialGradient(gradient, spread, transform)
     }
